@@ -15,7 +15,7 @@ SECTION_ONLY = re.compile(r"^\s*(?:Local\s+|Global\s+)?(Variable|Variables|Hypot
 ALLOWED_AXIOMS = [
     r"ClassicalDedekindReals\.sig_forall_dec", r"ClassicalDedekindReals\.sig_not_dec",
     r"FunctionalExtensionality\.functional_extensionality_dep", r"Classical_Prop\.classic",
-    r"PrimFloat\.\w+", r"Uint63\.\w+", r"PrimInt63\.\w+", r"FloatAxioms\.\w+", r"FloatOps\.\w+",
+    r"PrimFloat\.Leibniz\.eqb", r"FloatAxioms\.Leibniz\.eqb_spec", r"PrimFloat\.\w+", r"Uint63\.\w+", r"PrimInt63\.\w+", r"FloatAxioms\.\w+", r"FloatOps\.\w+",
     r"Uint63Axioms\.\w+", r"Eqdep\.Eq_rect_eq\.eq_rect_eq", r"JMeq\.JMeq_eq",
     r"ProofIrrelevance\.proof_irrelevance", r"ClassicalEpsilon\.constructive_indefinite_description",
     r"PropExtensionality\.propositional_extensionality",
